@@ -24,7 +24,12 @@ Z1 == << M("m1.txt", 33188, <<2017, 5, 31, 10, 20, 30>>, "stored", Run(97, 3), F
 Z2 == << M("only.class", 33188, <<2016, 11, 30, 8, 8, 8>>, "deflated", Run(65, 512), FALSE) >>
 Z3 == << M("w1", 33060, <<2017, 3, 31, 1, 2, 4>>, "stored", Run(66, 9), FALSE), M("w2", 33206, <<2017, 4, 30, 1, 2, 4>>, "stored", Run(66, 10), FALSE),
          \* (members with exactly one of the set-id bits: 02755 and 04755)
-         M("sg", 34285, <<2017, 4, 30, 1, 2, 6>>, "stored", Run(66, 3), FALSE), M("su", 35309, <<2017, 4, 30, 1, 2, 8>>, "stored", Run(66, 4), FALSE) >>
+         M("sg", 34285, <<2017, 4, 30, 1, 2, 6>>, "stored", Run(66, 3), FALSE), M("su", 35309, <<2017, 4, 30, 1, 2, 8>>, "stored", Run(66, 4), FALSE),
+         \* (a member name with a backslash in it: a character like any other)
+         M("re\\po.txt", 33188, <<2017, 4, 30, 1, 2, 10>>, "stored", Run(66, 5), FALSE),
+         \* (the directory flag is the archive's - the name ends with a slash -, the mode is shown as stored: a directory stored with
+         \*  permission bits only, a file whose stored mode carries the type bits of a directory)
+         M("d2/", 493, <<2017, 4, 30, 1, 2, 12>>, "stored", <<>>, TRUE), M("odd", 16804, <<2017, 4, 30, 1, 2, 14>>, "stored", Run(66, 2), FALSE) >>
 NoZip == <<>>
 F(i, p, nm, cont, zip, isz) == [id |-> i, parent |-> p, kind |-> "file", name |-> nm, content |-> cont, zip |-> zip, iszip |-> isz, truncate |-> -1, flip |-> 0, hasflip |-> FALSE]
 D(i, p, nm) == [id |-> i, parent |-> p, kind |-> "dir", name |-> nm, content |-> <<>>, zip |-> NoZip, iszip |-> FALSE, truncate |-> -1, flip |-> 0, hasflip |-> FALSE]
